@@ -103,7 +103,7 @@ theorem C05_counterexample_ns10_pinned :
 
 /-- pinned regexes without `(?s)`: a target name is cut at a newline -/
 theorem C05_counterexample_newline_pinned :
-    parsePathWith ⟨true, false, false, false⟩ ['/', '1', ':', 'a', '\n', 'b'] = some [⟨⟨0, .numeric 33⟩, false, true, ⟨1, some ['a']⟩⟩] := by
+    parsePathWith ⟨true, false, false, false, false⟩ ['/', '1', ':', 'a', '\n', 'b'] = some [⟨⟨0, .numeric 33⟩, false, true, ⟨1, some ['a']⟩⟩] := by
   decide
 
 /-- (recorded) printing a path whose reference type has no browse name panics (numeric id outside the table /
@@ -115,13 +115,13 @@ theorem C05_counterexample_print_panics :
 /-- pinned: a reference type browse name with a reserved character came back still escaped -/
 theorem C05_counterexample_reftype_escaped_pinned :
     (printPath (some [⟨⟨2, .str (some ['a', '.', 'b'])⟩, false, true, ⟨0, some ['x']⟩⟩])).bind
-        (parsePathWith ⟨true, true, false, false⟩) =
+        (parsePathWith ⟨true, true, false, false, false⟩) =
       some [⟨⟨2, .str (some ['a', '&', '.', 'b'])⟩, false, true, ⟨0, some ['x']⟩⟩] := by decide
 
 /-- pinned: `>` in a target name after a bracketed reference type was taken for the closing bracket -/
 theorem C05_counterexample_gt_in_target_pinned :
     (printPath (some [⟨⟨0, .numeric 34⟩, false, true, ⟨1, some ['a', '>', 'b']⟩⟩])).bind
-        (parsePathWith ⟨true, true, true, false⟩) =
+        (parsePathWith ⟨true, true, true, false, false⟩) =
       some [⟨⟨0, .str (some ['H', 'a', 's', 'C', 'h', 'i', 'l', 'd', '>', '1', ':', 'a', '&'])⟩, false, true, ⟨0, some ['b']⟩⟩] := by
   decide
 
@@ -137,7 +137,9 @@ theorem C05_counterexample_null_empty :
     (printPath (some [⟨⟨0, .numeric 33⟩, false, true, ⟨1, some []⟩⟩])).bind parsePath =
       some [⟨⟨0, .numeric 33⟩, false, true, ⟨1, none⟩⟩] ∧
     (printPath (some [⟨⟨0, .numeric 33⟩, false, true, ⟨5, none⟩⟩])).bind parsePath =
-      some [⟨⟨0, .numeric 33⟩, false, true, ⟨0, none⟩⟩] := by decide
+      some [⟨⟨0, .numeric 33⟩, false, true, ⟨0, none⟩⟩] ∧
+    -- a null element array and an empty one have the same (empty) text
+    (printPath none = some [] ∧ printPath (some []) = some [] ∧ parsePath [] = some []) := by decide
 
 /-- a string reference type id in namespace 0 equal to a standard name comes back as the numeric id -/
 theorem C05_counterexample_std_string :
